@@ -448,6 +448,13 @@ func (c *Ctx) mergeVals(conds []string, vs []Val, t types.Type, name string) Val
 	return Val{T: c.define(name, srt, term), Typ: t}
 }
 
+// bindFun: uninterpreted accessor "k-th captured value" of a closure reference, per sort.
+func (c *Ctx) bindFun(k int, srt string) string {
+	name := fmt.Sprintf("clbind%d_%s", k, sanitize(srt))
+	c.declFun(name, "(Int) "+srt)
+	return name
+}
+
 // term forces a Val into an SMT term (function values get a ref with fnid).
 func (c *Ctx) term(v Val) string {
 	if v.T != "" {
@@ -461,7 +468,26 @@ func (c *Ctx) term(v Val) string {
 		if len(v.Binds) > 0 {
 			// closure object: fresh each time
 			n := c.havoc("clo_"+sanitize(v.Fn.Name()), "Int")
-			c.assume("true", fmt.Sprintf("(and (> %s 0) (= (fnid %s) %d))", n, n, c.w.fnID(v.Fn)))
+			c.assume("true", fmt.Sprintf("(and (> %s nglobals) (= (fnid %s) %d))", n, n, c.w.fnID(v.Fn)))
+			// what it captured (by-value captures of scalar, reference and slice type)
+			for k, b := range v.Binds {
+				if k < len(v.Snaps) && v.Snaps[k].T != "" {
+					// captured by reference but never reassigned: its content
+					c.assume("true", fmt.Sprintf("(= (%s %s) %s)", c.bindFun(k, c.sorts.Of(v.Snaps[k].Typ)), n, v.Snaps[k].T))
+					continue
+				}
+				if k >= len(v.Fn.FreeVars) || b.L != nil || len(b.Tup) > 0 {
+					continue
+				}
+				srt := c.sorts.Of(v.Fn.FreeVars[k].Type())
+				if b.T == "" && b.Fn == nil {
+					continue
+				}
+				if b.Fn != nil && len(b.Binds) > 0 {
+					continue
+				}
+				c.assume("true", fmt.Sprintf("(= (%s %s) %s)", c.bindFun(k, srt), n, c.term(b)))
+			}
 			return n
 		}
 		if _, ok := c.globals[name]; !ok {
